@@ -6,29 +6,30 @@ namespace DL.CF
 
 /-- the loop of a `for` statement, closed form (the part of `Stmt.compl` after the initialiser) -/
 def forLoopC (ls : List Id) (update test : Kids) (hasTest tt : Bool) (body : Stmt) : Compl :=
-  (testCompl tt test).seq (loopCompl ls (hasTest && !tt)
-    ((body.compl []).union (Compl.guard (goesRound ls (body.compl [])) ((evalCompl update).seq (testCompl tt test)).abrupt)))
+  (testCompl tt test).seq ((loopCompl ls (hasTest && !tt) (body.compl [])).union
+    (Compl.guard (goesRound ls (body.compl [])) (update.compl.seq (testCompl tt test)).abrupt))
 
 /-- the loop of a `for-in/of` statement, closed form (after the iterated expression) -/
 def forInC (ls : List Id) (left : Kids) (body : Stmt) : Compl :=
-  (evalCompl left).seq (loopCompl ls true ((body.compl []).union (evalCompl left).abrupt))
+  left.compl.seq ((loopCompl ls true (body.compl [])).union left.compl.abrupt)
 
 theorem compl_for (ls : List Id) (p : Nat) (i u t : Kids) (ht tt : Bool) (b : Stmt) :
-    Stmt.compl ls (.forS p i u t ht tt b) = (evalCompl i).seq (forLoopC ls u t ht tt b) := by
+    Stmt.compl ls (.forS p i u t ht tt b) = i.compl.seq (forLoopC ls u t ht tt b) := by
   simp [Stmt.compl, forLoopC]
 
 theorem has_compl_forIn (ls : List Id) (p : Nat) (l r : Kids) (b : Stmt) (o : Outcome) :
-    (Stmt.compl ls (.forInOf p l r b)).has o = ((evalCompl r).seq (forInC ls l b)).has o := by
-  simp only [Stmt.compl, forInC, has_seq, seq_n, evalCompl_n, Bool.true_and, Bool.and_true]
-  cases o.abrupt <;> cases (evalCompl r).has o <;> cases (evalCompl l).has o <;> simp
+    (Stmt.compl ls (.forInOf p l r b)).has o = (r.compl.seq (forInC ls l b)).has o := by
+  simp only [Stmt.compl, forInC]
+  exact has_seq_assoc _ _ _ o
 
-theorem Eval.sound {ks : Kids} {o : Outcome} (h : Eval ks o) : (evalCompl ks).has o = true := by
-  cases h with
-  | normal => rfl
-  | thr hm => simpa [has_evalCompl] using hm
+/-- the `switch` closed form: what the cases contribute, with `break` consumed -/
+def casesLeave (cs : Cases) : Compl :=
+  let c := cs.compl.1.union (Compl.guard (!cs.compl.2) .normal)
+  { c with n := c.n || c.b, b := false }
 
-theorem Eval.thr_iff {ks : Kids} : Eval ks .thr ↔ ks.mayThrow = true :=
-  ⟨fun h => by cases h; assumption, Eval.thr ks⟩
+theorem compl_switch (ls : List Id) (p : Nat) (d : Kids) (cs : Cases) :
+    Stmt.compl ls (.switchS p d cs) = (d.compl.seq { n := true, t := cs.testsMayThrow }).seq (casesLeave cs) := by
+  simp [Stmt.compl, casesLeave]
 
 theorem Outcome.leavesSwitch_has (c : Compl) (o : Outcome) (h : c.has o = true) :
     ({ c with n := c.n || c.b, b := false } : Compl).has o.leavesSwitch = true := by
@@ -42,7 +43,7 @@ theorem Outcome.leavesSwitch_has (c : Compl) (o : Outcome) (h : c.has o = true) 
   · exact h
 
 theorem hasDefault_eq : ∀ (cs : Cases), cs.hasDefault = cs.compl.2
-  | .nil => rfl
+  | .nil => by simp [Cases.hasDefault, Cases.compl]
   | .cons _ d _ _ r => by simp [Cases.hasDefault, Cases.compl, hasDefault_eq r]
 
 end DL.CF
